@@ -46,4 +46,25 @@ PROPS_ADD = {
         "real": ["utils.DirLock (flock on a real LOCK file)", "NoKV.DB Open/Close (db variant)"],
         "stub": ["disk = real directory on /dev/shm behind SimFS"],
     },
+    "C27": {
+        "engine": "unitsim", "level": "exploration", "budget": {"quick": 15, "thorough": 600},
+        "title": "PD timestamps and IDs are unique and increasing across restarts",
+        "technique": "deterministic simulation: 2-4 tasks call Tso/AllocID on a real pd/server.Service persisting through pd/storage.LocalStore on SimFS; scheduling points before/after the counters are read, at the checkpoint mutex and at the checkpoint WriteFile/Rename; process-crash images at chosen FS events and at the end are restarted as cmd/nokv pd does and allocation continues",
+        "rule": "case = seeded Tso/AllocID calls (count 1-3) for 2-4 tasks + warm-up lifetime + up to 3 crash-image positions + scheduler stickiness; oracle: values of a lifetime are distinct and respect real-time order of calls; every value handed out after restarting an image is greater than every value whose response had been returned before the image instant; distinct = distinct event-trace hash (includes the schedule); non-trivial = at least two calls were in progress at the same time",
+        "level_text": "Seeded search over interleavings of concurrent allocation requests with the checkpoint writes, with crash images cut at file-system events and restarted. Right level because the property quantifies over schedules and crash points; each run restarts up to four images, and a run costs about a millisecond.",
+        "note": "Trusted: the restart sequence replicated from cmd/nokv/pd.go (package main: OpenLocalStore, Load, ResolveAllocatorStarts with the default starts 1/1, NewIDAllocator/NewAllocator/NewService, SetStorage), the process-crash model (a checkpoint WriteFile or Rename is atomic; an image holds what the kernel has), and the harness's logical clock for call invocation/return.",
+        "design_ref": "7/C27", "assumptions": E2_ASSUME + ["process-crash model: kernel-held file contents survive; power loss and torn checkpoint writes are not modelled"],
+        "real": ["pd/server.Service (Tso, AllocID)", "pd/tso.Allocator", "pd/core.IDAllocator", "pd/storage.LocalStore + manifest.Manager", "pd/storage.ResolveAllocatorStarts"],
+        "stub": ["gRPC transport (handlers are called directly)", "cmd/nokv pd start-up sequence (replicated in the harness)", "disk = real directory on /dev/shm behind SimFS"],
+    },
+    "C07": {
+        "engine": "unitsim", "level": "exploration", "budget": {"quick": 20, "thorough": 600},
+        "title": "Both memtable engines behave as the same ordered map",
+        "technique": "deterministic simulation / model-based testing: generated multisets of internal keys (arbitrary bytes, prefix pairs, many versions, all column families) inserted into a real utils.Skiplist and a real utils.ART, sequentially or by 2-3 inserter tasks (plus a reader) interleaved at the CAS yield sites; every Search, forward/reverse iteration and Seek compared with a sorted-slice model ordered by an independent comparator",
+        "rule": "case = seeded insert list (cf, user key, version, tower height) + key-shape mode + sequential/concurrent + arena size; oracle = sorted slice ordered by (cf asc, user key asc, version desc); after the inserts (and once midway) every Search probe (stored keys, version neighbours, absent neighbours), full forward and reverse iteration, and Seek+3xNext in both directions of both engines are compared with it; distinct = distinct event-trace hash; non-trivial = at least two distinct internal keys stored (sequential) / two inserters inside Add at the same time (concurrent)",
+        "level_text": "Seeded search over key multisets, insertion orders and (in a third of the runs) insert interleavings, with an independent sorted-slice model as oracle. Right level because the property quantifies over all key sets and interleavings; the structures are in-memory and a case costs well under a millisecond.",
+        "note": "Trusted: the independent comparator of the harness and kv.InternalKey as the key encoder. Skiplist tower heights are set through the verif knob skiplist.height (runtime.fastrand is not seedable); arena sizes below 1 MiB cannot be configured (newArena rounds up).",
+        "design_ref": "7/C07", "assumptions": E2_ASSUME,
+        "real": ["utils.Skiplist", "utils.ART", "utils.Arena", "utils.CompareKeys", "kv.InternalKey"],
+    },
 }
